@@ -87,6 +87,18 @@ func (f *ReverseBoltCursor) Seek(val []byte) {
 	}
 }
 
+// typedCursorKey strips the type tag off the key of a typed list entry. The empty string is stored as a key holding
+// only the tag: it is a valid (empty, non-nil) element, only the absence of a key ends the cursor
+func typedCursorKey(key []byte) []byte {
+	if key == nil {
+		return nil
+	}
+	if _, val := GetTypeAndValue(key); val != nil {
+		return val
+	}
+	return []byte{}
+}
+
 func NewTypedForwardBoltCursor(cursor *bbolt.Cursor, fieldType FieldType) ast.SeekableSetCursor {
 	result := &TypedForwardBoltCursor{
 		BaseBoltCursor: BaseBoltCursor{
@@ -97,7 +109,7 @@ func NewTypedForwardBoltCursor(cursor *bbolt.Cursor, fieldType FieldType) ast.Se
 	}
 
 	key, _ := result.cursor.First()
-	_, result.key = GetTypeAndValue(key)
+	result.key = typedCursorKey(key)
 
 	return result
 }
@@ -109,13 +121,13 @@ type TypedForwardBoltCursor struct {
 
 func (f *TypedForwardBoltCursor) Next() {
 	key, _ := f.cursor.Next()
-	_, f.key = GetTypeAndValue(key)
+	f.key = typedCursorKey(key)
 }
 
 func (f *TypedForwardBoltCursor) Seek(val []byte) {
 	searchVal := PrependFieldType(f.fieldType, val)
 	key, _ := f.cursor.Seek(searchVal)
-	_, f.key = GetTypeAndValue(key)
+	f.key = typedCursorKey(key)
 }
 
 func NewTypedReverseBoltCursor(cursor *bbolt.Cursor, fieldType FieldType) ast.SeekableSetCursor {
@@ -128,7 +140,7 @@ func NewTypedReverseBoltCursor(cursor *bbolt.Cursor, fieldType FieldType) ast.Se
 	}
 
 	key, _ := result.cursor.Last()
-	_, result.key = GetTypeAndValue(key)
+	result.key = typedCursorKey(key)
 
 	return result
 }
@@ -140,13 +152,15 @@ type TypedReverseBoltCursor struct {
 
 func (f *TypedReverseBoltCursor) Next() {
 	key, _ := f.cursor.Prev()
-	_, f.key = GetTypeAndValue(key)
+	f.key = typedCursorKey(key)
 }
 
 func (f *TypedReverseBoltCursor) Seek(val []byte) {
 	searchVal := PrependFieldType(f.fieldType, val)
-	f.key, _ = f.cursor.Seek(searchVal)
-	if !bytes.Equal(searchVal, f.key) {
+	key, _ := f.cursor.Seek(searchVal)
+	if !bytes.Equal(searchVal, key) {
 		f.Next()
+	} else {
+		f.key = typedCursorKey(key)
 	}
 }
